@@ -756,6 +756,56 @@ gen_c04_scaled_fit (gen_t *g, rng_t *r, scenario_t *sc)
     }
 }
 
+/* projective cover: a scale whose bottom row is (q, p, 1) with one of q, p zero, and a request
+ * computed so that the TRUE (divided) mapping stays inside the source with a pixel to spare
+ * while the undivided affine part runs well past it.  Everything derived from the transform
+ * (affine / scale flags, cover flags, choice of fetcher) has to agree about which of the two
+ * mappings is in force. */
+static void
+gen_c04_projcover (gen_t *g, rng_t *r, scenario_t *sc)
+{
+    static const pixman_format_code_t sf[] = { PIXMAN_a8r8g8b8, PIXMAN_x8r8g8b8, PIXMAN_r5g6b5, PIXMAN_a8, PIXMAN_a8r8g8b8 };
+    static const pixman_format_code_t df[] = { PIXMAN_a8r8g8b8, PIXMAN_x8r8g8b8, PIXMAN_r5g6b5, PIXMAN_a8r8g8b8 };
+    static const int ops[] = { 1, 3, 12, 3 };
+    int SW = (int)rng_range (r, 6, 60), SH = (int)rng_range (r, 3, 30), k, fi[2], i, n_req = (int)rng_range (r, 2, 5);
+    pixman_format_code_t want[2];
+    want[0] = df[rng_n (r, 4)]; want[1] = sf[rng_n (r, 5)];
+    for (k = 0; k < 2; k++) for (fi[k] = 0; fi[k] < sim_n_formats - 1; fi[k]++) if (sim_formats[fi[k]] == want[k]) break;
+    gen_bits_exact (g, 0, fi[0], 200, 120, 0, 0, (int)rng_n (r, 16), 8 * (int)rng_n (r, 2));
+    gen_bits_exact (g, 2, fi[1], SW, SH, 0, rng_chance (r, 1, 6), 0, 8 * (int)rng_n (r, 2));
+    for (i = 0; i < n_req; i++)
+    {
+	int64_t sx = rng_chance (r, 1, 2) ? 65536 : rng_range (r, 30000, 3 * 65536), sy = rng_chance (r, 1, 2) ? 65536 : rng_range (r, 30000, 3 * 65536);
+	int64_t pq = rng_range (r, 3000, 50000);
+	int on_y = !rng_chance (r, 1, 3), W, H, w, h;
+	double fx = sx / 65536.0, fy = sy / 65536.0, fp = pq / 65536.0;
+	int64_t a[14] = { 0, 0, 0, 2, 0, sx, 0, 0, 0, sy, 0, on_y ? 0 : pq, on_y ? pq : 0, 65536 };
+	int64_t f[9] = { 0, 0, 0, 2, rng_chance (r, 1, 2) ? PIXMAN_FILTER_NEAREST : PIXMAN_FILTER_BILINEAR, 1, 1, 0, 0 };
+	int64_t rp[5] = { 0, 0, 0, 2, rng_chance (r, 3, 4) ? 0 : rng_n (r, 4) };
+	/* largest request whose true mapping keeps a pixel and a half away from the far edges */
+	W = H = 1;
+	for (w = 1; w <= 190; w++)
+	{
+	    double xx = w - 0.5, ww = on_y ? 1 + fp * 0.5 : 1 + fp * xx;
+	    if (fx * xx / ww <= SW - 1.5) W = w; else if (on_y) break;
+	}
+	for (h = 1; h <= 110; h++)
+	{
+	    double yy = h - 0.5, ww = on_y ? 1 + fp * yy : 1 + fp * 0.5;
+	    if (fy * yy / ww <= SH - 1.5) H = h; else if (!on_y) break;
+	}
+	if (rng_chance (r, 1, 4)) { W = (int)rng_range (r, 1, W); }
+	if (rng_chance (r, 1, 4)) { H = (int)rng_range (r, 1, H); }
+	{
+	    int64_t c[16] = { 0, 0, 0, ops[rng_n (r, 4)], 2, -1, 0, 0, 0, 0, 0, 0, 0, W, H };
+	    sc_addv (sc, MOP_SET_TRANSFORM, 14, a);
+	    sc_addv (sc, MOP_SET_FILTER, 9, f);
+	    sc_addv (sc, MOP_SET_REPEAT, 5, rp);
+	    sc_addv (sc, MOP_COMPOSITE, 15, c);
+	}
+    }
+}
+
 /* an image of 4 GiB and a little whose pixels pixman allocates: the size arithmetic of its
  * own allocation, then requests that touch rows near the top (row offsets below 2^31) */
 static void
@@ -871,10 +921,11 @@ generate (uint64_t seed, int tier, const char *property, scenario_t *sc)
     if (property && !strcmp (property, "C04"))
     {
 	if (rng_chance (&r, 1, 400)) { gen_c04_huge (&g, &r, sc); return; }
-	switch (rng_n (&r, 5))
+	switch (rng_n (&r, 6))
 	{
 	case 0: gen_c04_fit (&g, &r, sc); break;
 	case 1: gen_c04_scaled_fit (&g, &r, sc); break;
+	case 2: gen_c04_projcover (&g, &r, sc); break;
 	default: gen_c04 (&g, &r, sc); break;
 	}
     }
